@@ -119,6 +119,9 @@ func BuildPattern(cache *ChunkCache, patternCache map[string]*Pattern, fuzzy boo
 			}
 		}
 	} else {
+		// Nothing to sort by if the query is empty; the pattern is not
+		// "empty" and the list is scanned when there are excluded items
+		sortable = len(asString) > 0
 		lowerString := strings.ToLower(asString)
 		normalize = normalize &&
 			lowerString == string(algo.NormalizeRunes([]rune(lowerString)))
